@@ -1,9 +1,9 @@
 """C13 - reading through a reference equals reading its current target (model equality on reference-routing programs)."""
 from __future__ import annotations
-from .runner import Result, Violation
+from .runner import Result, Violation, scaled
 from .gen_core import gen_case
 from . import model as M
-from .c03 import classify_with_emulations, compare_runs
+from .c03 import classify_with_emulations, compare_runs, EMULATIONS, BOUNDARY_REF_MSG
 
 PROPERTY = "C13"
 LEVEL = "exploration"
@@ -123,13 +123,15 @@ def check_sibling(case, tr):
 
 
 def generate(rng, tier, seed):
-    n = 400 if tier == "quick" else 6000
+    n = scaled(400 if tier == "quick" else 6000)
     cases = [gen_case(rng, f"c13_{seed}_{k}", allow_ite=True, allow_fb=rng.random() < 0.3,
                       n_nodes=rng.choice([4, 6, 9, 14, 20])) for k in range(n)]
     cases += [gen_coll_ref(rng, f"c13_{seed}_coll{k}") for k in range(n // 4)]
     cases += [gen_sibling_ref(rng, f"c13_{seed}_sib{k}") for k in range(n // 5)]
     from .witness import f12_case
     cases.append(f12_case(f"c13_{seed}_witnessF12"))
+    from .witness import f22_case
+    cases.append(f22_case(f"c13_{seed}_witnessF22"))
     return cases
 
 
@@ -240,15 +242,17 @@ def check(case, tr):
             return compare_runs(c, r, m)
         best = None
         for notify in (True, False):
-            for flags in ({"emulate_sampled_start": True}, {"emulate_stale": True}, {"emulate_sampled_start": True, "emulate_stale": True}):
+            for flags in EMULATIONS:
                 mr2 = M.simulate(flat, ref_invalid_notify=notify, **flags)
-                if (mr2.stale or mr2.sampled or mr2.stale_armed) and not compare_runs(case, run, mr2):
+                if (mr2.stale or mr2.sampled or mr2.stale_armed or mr2.boundary_refs) and not compare_runs(case, run, mr2):
                     best = mr2
                     break
             if best:
                 break
         if best is not None:
             mr = best
+            if best.boundary_refs:
+                res.violations.append(Violation(BOUNDARY_REF_MSG % (best.boundary_refs[:3],), "nested-boundary-unset-reference-reads-valid-empty"))
             if best.sampled:
                 res.violations.append(Violation(f"node with an all-Unchecked validity gate inside a nested graph ran at child start although "
                                                 f"its boundary source never ticked: (uid,t)={best.sampled[:3]}", "nested-start-samples-unset-source"))
